@@ -34,6 +34,7 @@ package sync
 //@   requires validParams(s.Params)
 //@   requires !oldTail.IsZero() && 1 <= oldTail.Height() && oldTail.Height() <= head.Height()
 //@   requires storeHeightBound <= head.Height()
+//@   modifies ghost:storeLow
 //@   ensures [C16] inchain: result1 == nil ==> oldTail.Height() <= result0 && result0 <= head.Height()
 //@   ensures [C16] retention: result1 == nil && chainSpacing(s.Params.blockTime) && oldTail == chainAt(oldTail.Height()) && head == chainAt(head.Height()) ==> forall h uint64 :: oldTail.Height() <= h && h < result0 ==> chainAt(h).Time() < head.Time() - s.Params.PruningWindow
 //@ loop 0:
@@ -45,28 +46,31 @@ package sync
 //@   requires validParams(s.Params)
 //@   requires oldTail.IsZero() || (1 <= oldTail.Height() && oldTail.Height() <= head.Height())
 //@   requires storeHeightBound <= head.Height()
+//@   modifies ghost:storeLow
 //@   ensures [C16] inchain: result1 == nil ==> 1 <= result0 && (s.Params.SyncFromHeight == 0 && head.Height() >= 1 ==> result0 <= head.Height())
 
 //@ func (*Syncer).moveTail(s, ctx, from, to)
 //@   props C16
 //@   requires from.IsZero() || from.Height() == storeTailH
 //@   requires [C16] within-store: from.IsZero() || to.Height() <= from.Height() || to.Height() <= storeLow + 1
-//@   modifies ghost:storeTailH, ghost:storeLow, Parameters.hash
+//@   requires from.IsZero() || (verified(to) && from.Height() < MaxUint64)
+//@   modifies ghost:storeTailH, ghost:storeLow, AP_set, AP_val_Hdr, ghost:storeAppends, ghost:appendedTop, errNonAdjacent.Head, errNonAdjacent.Attempted, $now, ranges.ranges, headerRange.headers, headerRange.start, State.ID, State.FromHeight, State.ToHeight, State.FromHash, State.ToHash, State.Start, State.End, State.Error, Parameters.hash
 
 //@ func (*Syncer).renewTail(s, ctx, oldTail, head)
 //@   props C16
 //@   requires validParams(s.Params)
 //@   requires oldTail.IsZero() || (1 <= oldTail.Height() && oldTail.Height() <= head.Height())
 //@   requires storeHeightBound <= head.Height()
-//@   modifies ghost:storeLow, Parameters.hash
+//@   modifies ghost:storeLow, Parameters.hash, AP_set, AP_val_Hdr, ghost:storeAppends, ghost:appendedTop, errNonAdjacent.Head, errNonAdjacent.Attempted
+//@   ensures [C16] verified-tail: result1 == nil && !result0.IsZero() && (oldTail.IsZero() || verified(oldTail)) ==> verified(result0)
 //@   ensures [C16] nonzero: result1 == nil ==> (!result0.IsZero() || (oldTail.IsZero() && result0 == oldTail))
 //@   ensures [C16] inchain: result1 == nil && !result0.IsZero() && s.Params.SyncFromHash == "" && len(old(s.Params.hash)) == 0 && s.Params.SyncFromHeight == 0 && head.Height() >= 1 ==> 1 <= result0.Height() && result0.Height() <= head.Height()
 
 //@ func (*Syncer).subjectiveTail(s, ctx, head)
 //@   props C16
-//@   requires validParams(s.Params)
-//@   requires !head.IsZero() && 1 <= head.Height() && storeHeightBound <= head.Height() && storeTailH <= head.Height()
-//@   modifies ghost:storeTailH, ghost:storeLow, Parameters.hash
+//@   requires [C16] valid-params: validParams(s.Params)
+//@   requires [C16] entry-assumptions: !head.IsZero() && 1 <= head.Height() && head.Height() < MaxUint64 && storeHeightBound <= head.Height() && storeTailH <= head.Height()
+//@   modifies ghost:storeTailH, ghost:storeLow, Parameters.hash, AP_set, AP_val_Hdr, ghost:storeAppends, ghost:appendedTop, errNonAdjacent.Head, errNonAdjacent.Attempted, $now, ranges.ranges, headerRange.headers, headerRange.start, State.ID, State.FromHeight, State.ToHeight, State.FromHash, State.ToHash, State.Start, State.End, State.Error
 
 // ---- bifurcation (C15)
 
@@ -79,7 +83,7 @@ package sync
 //@   props C15
 //@   requires verified(subjHead) && newHead.Height() > subjHead.Height()
 //@   modifies AP_set, AP_val_Hdr, elems(H), EH_Int, headerRange.headers, headerRange.start, ranges.ranges, $now, ghost:storeAppends, ghost:appendedTop, errNonAdjacent.Head, errNonAdjacent.Attempted, header.VerifyError.SoftFailure
-//@   ensures [C15] sound: result == nil ==> verified(newHead)
+//@   ensures [C15] sound: result == nil ==> verified(newHead) && !newHead.IsZero()
 //@   ensures [C15] refusal-reason: result != nil && asVerr(result) != nil && asVerr(result).SoftFailure ==> cur(subjHeight) + 1 >= newHead.Height()
 //@ loop 0:
 //@   invariant [C15] search: subjHeight == subjHead.Height() && subjHeight < newHead.Height() && diff <= newHead.Height() - subjHeight && verified(subjHead)
@@ -113,12 +117,12 @@ package sync
 //@ func (*Syncer).verify(s, ctx, newHead)
 //@   props C03, C15
 //@   modifies AP_set, AP_val_Hdr, elems(H), EH_Int, headerRange.headers, headerRange.start, ranges.ranges, $now, ghost:storeAppends, ghost:appendedTop, errNonAdjacent.Head, errNonAdjacent.Attempted, header.VerifyError.SoftFailure
-//@   ensures [C03,C15] sound: result == nil ==> verified(newHead)
+//@   ensures [C03,C15] sound: result == nil ==> verified(newHead) && !newHead.IsZero()
 
 //@ func (*Syncer).incomingNetworkHead(s, ctx, head)
 //@   props C03, C15
 //@   modifies AP_set, AP_val_Hdr, elems(H), EH_Int, headerRange.headers, headerRange.start, ranges.ranges, $now, ghost:storeAppends, ghost:appendedTop, errNonAdjacent.Head, errNonAdjacent.Attempted, header.VerifyError.SoftFailure
-//@   ensures [C03] refused-or-verified: result == nil ==> verified(head)
+//@   ensures [C03] refused-or-verified: result == nil ==> verified(head) && !head.IsZero()
 
 //@ func (*syncStore).Append(s, ctx, headers)
 //@   props C03
@@ -200,3 +204,58 @@ package sync
 //@   ensures [C07] reaches-target: result == nil && fromHead.Height() < toHead.Height() ==> appendedTop == toHead.Height()
 //@   ensures [C07] state-cleared: result == nil ==> s.state.Error == ""
 //@   ensures [C07] state-range: s.state.ToHeight == toHead.Height() && s.state.FromHeight == u64(fromHead.Height() + 1)
+
+// ---- Syncer.Head: freshness and expiry (C19)
+
+//@ pure expiredAt(h, period, t) = !h.IsZero() && t - (h.Time() + period) > 0
+//@ pure recentAt(h, blockTime, threshold, t) = t - (h.Time() + ite(threshold == 0, i64(blockTime * 3), threshold)) <= 0
+
+//@ func isExpired(header, period)
+//@   props C19
+//@   modifies $now
+//@   ensures [C19] exact: result0 <==> expiredAt(header, period, now)
+//@   ensures [C19] clock: now >= old(now)
+
+//@ func isRecent(header, blockTime, recencyThreshold)
+//@   props C19
+//@   modifies $now
+//@   ensures [C19] exact: result0 <==> recentAt(header, blockTime, recencyThreshold, now)
+//@   ensures [C19] clock: now >= old(now)
+
+//@ func (*syncHead).Head(sh, ctx, opts)
+//@   props C19
+//@   modifies syncHead.headCh, syncHead.resHead, syncHead.resErr, ghost:headCalls, ghost:lastTrusted
+//@   ensures [C19] at-most-one-request: headCalls <= old(headCalls) + 1
+//@   ensures [C19] trusted-recorded: headCalls == old(headCalls) + 1 ==> lastTrusted == trustedHeadOf(opts)
+//@   ensures [C19] own-request-result: headCalls == old(headCalls) + 1 && result1 == nil ==> !result0.IsZero() && validated(result0) && (!trustedHeadOf(opts).IsZero() ==> passedVerify(trustedHeadOf(opts), result0))
+//@   ensures [C19] own-request-soft: headCalls == old(headCalls) + 1 && result1 != nil && !result0.IsZero() ==> asVerr(result1) != nil && asVerr(result1).SoftFailure
+//@   assumes result1 == nil ==> !result0.IsZero() && validated(result0) && (!trustedHeadOf(opts).IsZero() ==> passedVerify(trustedHeadOf(opts), result0)) -- a caller that joined a flight in progress reads that flight's result (written before the done channel is closed); sharing between racing flights is not decided
+//@   assumes result1 != nil && !result0.IsZero() ==> asVerr(result1) != nil && asVerr(result1).SoftFailure
+
+//@ func (*Syncer).subjectiveHead(s, ctx)
+//@   props C19
+//@   modifies AP_set, AP_val_Hdr, $now, ghost:headCalls, ghost:lastTrusted, syncHead.headCh, syncHead.resHead, syncHead.resErr
+//@   ensures [C19] never-expired: result2 == nil ==> !result0.IsZero() && !expiredAt(result0, s.Params.trustingPeriod, now)
+//@   ensures [C19] no-traffic-when-valid: result2 == nil && !result1 ==> headCalls == old(headCalls)
+//@   ensures [C19] untrusted-request-on-init: result1 ==> result2 == nil && (headCalls == old(headCalls) + 1 ==> lastTrusted.IsZero())
+//@   ensures [C19] at-most-one-request: headCalls <= old(headCalls) + 1
+//@   ensures [C03] verified-or-initialized: result2 == nil && !result1 ==> verified(result0)
+
+//@ func (*Syncer).networkHead(s, ctx)
+//@   props C19
+//@   ghost sbj H := result0 of call subjectiveHead #0
+//@   ghost sbjInit bool := result1 of call subjectiveHead #0
+//@   ghost sbjErr error := result2 of call subjectiveHead #0
+//@   modifies AP_set, AP_val_Hdr, elems(H), EH_Int, headerRange.headers, headerRange.start, ranges.ranges, $now, ghost:storeAppends, ghost:appendedTop, errNonAdjacent.Head, errNonAdjacent.Attempted, header.VerifyError.SoftFailure, ghost:headCalls, ghost:lastTrusted, syncHead.headCh, syncHead.resHead, syncHead.resErr
+//@   ensures [C19] error-only-from-subjective: result2 != nil <==> (called(sbjErr) && sbjErr != nil)
+//@   ensures [C19] no-downgrade: result2 == nil ==> result0.Height() >= sbj.Height() && !result0.IsZero()
+//@   ensures [C19] recent-no-traffic: result2 == nil && !sbjInit && recentAt(sbj, s.Params.blockTime, s.Params.recencyThreshold, now) ==> headCalls == old(headCalls) && result0 == sbj && !result1
+//@   ensures [C19] stale-one-trusted-request: result2 == nil && !sbjInit ==> headCalls <= old(headCalls) + 1 && (headCalls == old(headCalls) + 1 ==> lastTrusted == sbj)
+//@   ensures [C19] at-most-two-requests: headCalls <= old(headCalls) + 2
+//@   ensures [C19] updated-means-higher-or-init: result2 == nil && result1 ==> sbjInit || result0.Height() > sbj.Height()
+
+//@ func (*Syncer).Head(s, ctx, opts)
+//@   props C19
+//@   modifies AP_set, AP_val_Hdr, elems(H), EH_Int, headerRange.headers, headerRange.start, ranges.ranges, $now, ghost:storeAppends, ghost:appendedTop, errNonAdjacent.Head, errNonAdjacent.Attempted, header.VerifyError.SoftFailure, ghost:headCalls, ghost:lastTrusted, syncHead.headCh, syncHead.resHead, syncHead.resErr, ghost:storeTailH, ghost:storeLow, Parameters.hash
+//@   ensures [C19] non-zero: result1 == nil ==> !result0.IsZero()
+//@   ensures [C19] at-most-two-requests: headCalls <= old(headCalls) + 2
